@@ -23,12 +23,12 @@ LEVEL_NOTE = ('Flux values from a fixed + seed-derived alphabet; the first file 
 RULE = ("cases: (n_ap, distance, n_wav, spectral order) configurations x stored unit A; executions: for every B: read A as B, write, read back as A, and for every C compare "
         "read(B-file, C) with read(A-file, C); non-trivial = distinct (configuration, A, B) with A != B")
 ASSUMPTIONS = ["positive finite fluxes and frequencies", "distance taken from the file header"]
-REQUIRED_CLASSES = ['intermediate-object-in-wavelength-order', 'fluxes-spanning-many-decades', 'spectral-axis-requested-in-GHz-and-nm', 'unsupported-error-unit-refused', 'legacy-unit-strings', 'zero-flux-cell', 'error-column-in-other-unit', 'float32-file', 'distance-keyword-absent', 'pair-different-family', 'chain-ABA', 'chain-ABC', 'unsupported-refused', 'luminosity-with-distance!=1kpc', 'nu-decreasing-in-file', 'multi-aperture']
+REQUIRED_CLASSES = ['frequency-column-not-exactly-c-over-wavelength', 'all-stored-numbers-tiny', 'unsupported-stored-unit-refused', 'intermediate-object-in-wavelength-order', 'fluxes-spanning-many-decades', 'spectral-axis-requested-in-GHz-and-nm', 'unsupported-error-unit-refused', 'legacy-unit-strings', 'zero-flux-cell', 'error-column-in-other-unit', 'float32-file', 'distance-keyword-absent', 'pair-different-family', 'chain-ABA', 'chain-ABC', 'unsupported-refused', 'luminosity-with-distance!=1kpc', 'nu-decreasing-in-file', 'multi-aperture']
 TIMEOUT = {'quick': 300, 'thorough': 1800}
 
-UNITS = ['mJy', 'Jy', 'erg / (cm2 s)', 'erg / s', 'W / m2']
-FITS_UNIT = {'mJy': 'mJy', 'Jy': 'Jy', 'erg / (cm2 s)': 'erg s-1 cm-2', 'erg / s': 'erg s-1', 'W / m2': 'W m-2'}
-AXES = {'n_ap': [2, 0, 1, 5], 'n_wav': [3, 2, 10], 'order': ['nu-inc', 'nu-dec'], 'err_unit': ['same', 'other'], 'f32': [False, True], 'legacy': [False, True], 'zero': [False, True], 'faint': [False, True]}
+UNITS = ['mJy', 'Jy', 'erg / (cm2 s)', 'erg / s', 'W / m2', 'MJy']          # MJy: megajansky (not the legacy spelling MJY of mJy)
+FITS_UNIT = {'MJy': 'MJy', 'mJy': 'mJy', 'Jy': 'Jy', 'erg / (cm2 s)': 'erg s-1 cm-2', 'erg / s': 'erg s-1', 'W / m2': 'W m-2'}
+AXES = {'n_ap': [2, 0, 1, 5], 'n_wav': [3, 2, 10], 'order': ['nu-inc', 'nu-dec'], 'err_unit': ['same', 'other'], 'f32': [False, True], 'legacy': [False, True], 'zero': [False, True], 'faint': [False, True], 'nu_col': ['exact', 'c=3e8'], 'scale': [1.0, 1e-12]}
 DISTS = ['1kpc', '140pc', 'absent', '3.3e22cm', '1kpc']      # visited in this order inside every case (same grid, same units, other distance)
 DIST_CM = {'1kpc': pkgwriter.KPC_CM, '140pc': 140 * pkgwriter.KPC_CM / 1000.0, '3.3e22cm': 3.3e22, 'absent': pkgwriter.KPC_CM}
 
@@ -83,8 +83,18 @@ def _one_distance(ctx, case, rec, d):
         nu = nu[::-1]
         rec.cls('nu-decreasing-in-file')
     wav = pkgwriter.C_M_S / nu * 1e6
+    nu_arg = None
+    if case.get('nu_col', 'exact') != 'exact':
+        # a file whose wavelengths were derived with c = 3e8 m/s: its FREQUENCY column is not exactly c / WAVELENGTH, and it is the
+        # frequencies of the file that relate F and F_nu
+        wav = 3.0e8 / nu * 1e6
+        nu_arg = nu
+        rec.cls('frequency-column-not-exactly-c-over-wavelength')
     na = max(n_ap, 1)
     base = np.array([[(a + 1) * 10.0 + w for w in range(n_wav)] for a in range(na)]) * rng.uniform(0.5, 2.0)
+    if case.get('scale', 1.0) != 1.0:
+        base = base * case['scale']          # every stored number far below 1e-8 (as fluxes in erg/cm^2/s or W/m^2 are)
+        rec.cls('all-stored-numbers-tiny')
     err = base * 0.125
     if case.get('zero'):
         base = base.copy()
@@ -102,7 +112,7 @@ def _one_distance(ctx, case, rec, d):
     if n_ap >= 2:
         rec.cls('multi-aperture')
     # the error column may carry another unit of the same family than the flux column (the format stores them separately)
-    SIB = {'mJy': ('Jy', 1e-3), 'Jy': ('mJy', 1e3), 'erg / (cm2 s)': ('W / m2', 1e-3), 'W / m2': ('erg / (cm2 s)', 1e3), 'erg / s': ('erg / s', 1.0)}
+    SIB = {'MJy': ('Jy', 1e6), 'mJy': ('Jy', 1e-3), 'Jy': ('mJy', 1e3), 'erg / (cm2 s)': ('W / m2', 1e-3), 'W / m2': ('erg / (cm2 s)', 1e3), 'erg / s': ('erg / s', 1.0)}
     eu, efac = SIB[A] if case.get('err_unit') == 'other' else (A, 1.0)
     if eu != A:
         rec.cls('error-column-in-other-unit')
@@ -119,10 +129,10 @@ def _one_distance(ctx, case, rec, d):
         extra = {'wav_unit': 'MICRONS', 'freq_unit': 'HZ'}
         rec.cls('legacy-unit-strings')
     pkgwriter.write_sed_file(d, 'm', wav, base, err * efac, apertures_au=ap, unit=unit_str, err_unit=eunit_str, float32=bool(case.get('f32')),
-                             distance_cm=None if case['dist'] == 'absent' else dist, filename='a.fits', **extra)
+                             distance_cm=None if case['dist'] == 'absent' else dist, filename='a.fits', nu_hz=nu_arg, **extra)
     fa = os.path.join(d, 'seds', 'a.fits')
     if case.get('f32'):
-        nu = pkgwriter.nu_of_wav_micron(wav).astype(np.float32).astype(float)      # the frequencies as the single-precision file stores them
+        nu = (pkgwriter.nu_of_wav_micron(wav) if nu_arg is None else np.asarray(nu_arg, float)).astype(np.float32).astype(float)      # the frequencies as the single-precision file stores them
     order = np.argsort(nu)               # SED.read(order='nu') returns increasing frequency
     nu_inc = nu[order]
     base_inc = base[:, order]
@@ -201,6 +211,17 @@ def _one_distance(ctx, case, rec, d):
                 rec.violation('chain|A->B->C', dict(sub, C=C), {'via_B': rc.flux.value[0][:4], 'direct': readC_from_A[C][0][:4]})
                 break
         rec.trace()
+    # a file stored in a unit the library does not know how to convert is refused, whatever the requested unit
+    if case.get('_deviations', 0) == 0 and A == 'mJy':
+        for bad_unit in ('MJY/SR', 'ergs/cm^2/s/A', 'K', 'Jy/beam', 'mJy/um'):
+            pkgwriter.write_sed_file(d, 'm', wav, base, err, apertures_au=ap, unit=bad_unit, filename='bad_unit.fits')
+            for want in ('mJy', 'erg / (cm2 s)'):
+                try:
+                    SED.read(os.path.join(d, 'seds', 'bad_unit.fits'), unit_flux=u.Unit(want))
+                    rec.violation('convert|unsupported-accepted', {'stored_unit': bad_unit, 'target': want}, {'problem': 'a file stored in %r was read as %s without complaint' % (bad_unit, want)})
+                except Exception:
+                    rec.cls('unsupported-stored-unit-refused')
+                rec.ev()
     # a file whose flux column is fine but whose error column carries an unsupported unit is refused as well
     if case.get('_deviations', 0) == 0:
         for bad_err in ('K', 'erg s-1 cm-2 Angstrom-1'):
